@@ -31,21 +31,25 @@ theorem scenario_deepStored : WC.DeepStoredC t7.1 tS.2.1 (newEffects t7.2 tS.2.2
 
 /-! ### the slab `R`: same shallow content, different deep content -/
 
-deriving instance DecidableEq for DataSlab
-deriving instance DecidableEq for ASlab
-
-/-- equality of (optional) array slabs, as a Boolean -/
+/-- equality of two array DATA slabs of the heap, as a Boolean (no global `DecidableEq` instance is
+    introduced) -/
 def wsEq : Option WSlab → Option WSlab → Bool
-  | some (.arr a t), some (.arr b u) => decide (a = b) && decide (t = u)
-  | none, none => true
+  | some (.arr (.data a) t), some (.arr (.data b) u) =>
+    decide (a.hdr = b.hdr) && decide (a.next = b.next) && decide (a.elems = b.elems) &&
+      decide (a.root = b.root) && decide (a.inlined = b.inlined) && decide (t = u)
   | _, _ => false
 
 theorem wsEq_sound {x y : Option WSlab} (h : wsEq x y = true) : x = y := by
   unfold wsEq at h
   split at h
-  · simp only [Bool.and_eq_true, decide_eq_true_eq] at h
-    rw [h.1, h.2]
-  · rfl
+  · rename_i a t b u
+    simp only [Bool.and_eq_true, decide_eq_true_eq] at h
+    obtain ⟨⟨⟨⟨⟨h1, h2⟩, h3⟩, h4⟩, h5⟩, h6⟩ := h
+    obtain ⟨ah, an, ae, ar, ai⟩ := a
+    obtain ⟨bh, bn, be, br, bi⟩ := b
+    simp only at h1 h2 h3 h4 h5
+    subst h1; subst h2; subst h3; subst h4; subst h5; subst h6
+    rfl
   · cases h
 
 /-- the element of `R` that refers to the inlined map `M` -/
